@@ -166,8 +166,17 @@ def run(res, tier, rng, table_diffs=()):
              "functie h(n) { stel l = %s; als n > 0 { antwoord h(n - 1) + lengte(l) }; lengte(l) }; h(4)" % big(30000, '"z"'),
              "stel keep = []; stel k = 0; zolang k < 40000 { k += 1; keep = [keep, \"v\"] }; k"]
     hb = 3000000
+    # ... and evaluations that declare MANY DISTINCT NAMES (round 11: a process-wide table of names with a capacity): 17 000 / 34 000 /
+    # 60 000 declarations, then uses of the first, the middle and the last ones; the expected value is known by construction
+    # (the model's resolver is quadratic in the number of names, so it is not asked)
+    known = {}
+    for n in (17000, 34000, 60000):
+        pn = " ".join("stel naam%d_%d = %d;" % (n, i, i) for i in range(n)) + " [naam%d_0, naam%d_1, naam%d_%d, naam%d_%d]" % (n, n, n, n // 2, n, n - 1)
+        known[len(heavy)] = "ok a:[i:0 i:1 i:%d i:%d] | x" % (n // 2, n - 1)
+        heavy.append(pn)
     hreq = ["evalm %d %s" % (hb, hx(p)) for p in heavy]
-    hexp = core.model(["eval %d %s" % (hb, hx(p)) for p in heavy], per_request_timeout=300)
+    hexp = core.model(["eval %d %s" % (hb, hx(p)) for k, p in enumerate(heavy) if k not in known], per_request_timeout=300)
+    hexp = hexp + [known[k] for k in sorted(known)]
     hfresh = []
     for q in hreq:
         pr = subprocess.run([exe_rel], input=q + "\n", stdout=subprocess.PIPE, stderr=subprocess.DEVNULL, text=True, timeout=300)
